@@ -282,6 +282,73 @@ def routing(out, mc, fns, pending):
         ob.status = "pass"
 
 
+def handshake(out, mc, pending):
+    """run_ls: the initialize request is answered whatever its params are (no unwrap on client data)"""
+    fns = mc.fns("emmylua_ls", r"^fn run_ls")
+    fn = [f for f in fns if f.name == "run_ls::{closure#0}"]
+    ob = out.add(Obligation("handshake/initialize_always_answered", "M",
+                            "run_ls: once initialize_start handed over (id, params), every completed path answers that id exactly once — initialize_finish(id, ..) or an error response — "
+                            "and no unwrap/expect is applied to a value deserialized from the client's params",
+                            {"function": "run_ls::{closure#0}", "free": "initialize_start outcome, from_value outcome, initialize_finish outcome"}, [f.name for f in fn]))
+    if len(fn) != 1:
+        ob.status = "inconclusive"
+        ob.detail = "run_ls not found"
+        return
+    ex = symex.Executor(fns, enums=ENUMS, max_visits=3)
+
+    def m_unwrap(ex_, st, cname, args, dest_ty, fn_):
+        v = args[0]
+        if isinstance(v, Opaque):
+            k = ex_.deep_key(st, v)
+            # judged: an unwrap applied directly to the result of DEserializing client data (serializing the
+            # server's own capabilities cannot fail and is not judged)
+            if "initialize_start" in k and re.match(r"^opq:\(call,serde_json::(from_value|from_str|from_slice)", k):
+                d = ex_.discriminant(st, v)
+                good = 1 if "Option" in cname else 0
+                st.obligations.append(("%s on a value deserialized from the client's initialize params" % cname.split("::")[-1], d.term == z3.BitVecVal(good, 64), fn_.name, len(st.pc)))
+        return NotImplemented
+    ex.models.append((r"(Option|Result)::<.*>::(unwrap|expect)$", m_unwrap))
+    st = symex.State()
+    paths = ex.run(fn[0], coroutine_args(ex, st), st)
+    fails = []
+    n = 0
+    for p in paths:
+        if p.kind in ("cut", "diverge"):
+            continue
+        start = mflow.find_event(p, r"Connection::initialize_start$")
+        if start is None:
+            continue
+        for (what, cond, where, npc) in p.state.obligations:
+            r, _ = mc.check(list(p.pc[:npc]) + [z3.Not(cond)], "unwrap")
+            if r != "unsat":
+                fails.append("%s can panic" % what)
+        if p.kind != "return":
+            fails.append("path kind %s" % p.kind)
+            continue
+        # did initialize_start succeed on this path?  (its Try::branch forks Ok/Err)
+        d = ex.discriminant(p.state, start["result"])
+        if not mc.implied_eq(p, d.term, 0):
+            continue
+        n += 1
+        fin = [e for e in p.trace if re.search(r"Connection::initialize_finish$", e.get("short", ""))]
+        errs = [e for e in p.trace if re.search(r"Sender.*::send$|ServerContext::send$", e["callee"]) and "Response::new_err" in " ".join(e["akeys"])]
+        if len(fin) + len(errs) != 1:
+            fails.append("%d answers to the initialize request on a completed path" % (len(fin) + len(errs)))
+        for e in fin:
+            if "initialize_start" not in e["akeys"][1]:
+                fails.append("initialize_finish answers an id that does not come from initialize_start")
+    ob.witness = n > 0
+    ob.extra = {"paths_after_successful_initialize_start": n}
+    if n == 0:
+        fails.append("no completed path after initialize_start")
+    if fails:
+        ob.status = "pending"
+        ob.detail = "; ".join(sorted(set(fails)))[:600]
+        pending.append((ob, fails))
+    else:
+        ob.status = "pass"
+
+
 # ---------------------------------------------------------------------------------------------
 # native replay: real emmylua_ls over stdio
 
@@ -325,6 +392,7 @@ def replay(out, pending):
         # two scripted sessions that open the windows a cancellation bug needs
         extra["cancel_during_init"] = lspdrive.session_cancel_during_init(exe)
         extra["cancel_in_flight"] = lspdrive.session_cancel_in_flight(exe)
+        extra["bad_initialize"] = {k: v for k, v in lspdrive.session_bad_initialize(exe).items() if k != "alive"}
     for ob, fails in pending:
         if not exe:
             ob.status = "inconclusive"
@@ -373,6 +441,7 @@ def run(out):
         dispatcher(out, mc, fns, pending)
         task_wrapper(out, mc, fns, pending)
         routing(out, mc, fns, pending)
+        handshake(out, mc, pending)
     except (symex.Unsupported, RuntimeError, KeyError, ValueError, IndexError, AttributeError) as e:
         import traceback
         out.fatal = "engine M could not encode the current source: %r\n%s" % (e, traceback.format_exc()[-1500:])
